@@ -18,7 +18,9 @@ import (
 
 func init() { register(&Monitor{ID: "C06", Run: runC06, Self: selfC06}) }
 
-var c06Keys = []string{"", "a", "b", "c", ".", "#", "a.b", "a#1", "k\"q", "é", "key with space", string(rune(0x1f600)), "\x00", "A", ".a", ".b", ".a.b", "a#0", "b.a", "a.a", ".a#0", "#0"}
+var c06Keys = []string{"", "a", "b", "c", ".", "#", "a.b", "a#1", "k\"q", "é", "key with space", string(rune(0x1f600)), "\x00", "A", ".a", ".b", ".a.b", "a#0", "b.a", "a.a", ".a#0", "#0",
+	// keys that collide under common digests (both of a pair are in the pool, so they meet in one object)
+	"Aa", "BB", "liquid", "costarring", "aca", "bab", "ab", "ba", "a\x00", "a "}
 
 func c06Key(r *rng.R) string {
 	if r.Chance(1, 12) {
